@@ -13,9 +13,11 @@ MODES = ['nearest', 'wrap', 'reflect', 'mirror', 'constant', 'ignore']
 DTYPES = ['uint8', 'int32', 'float64', 'int8', 'uint16', 'int64', 'uint64', 'float32', 'bool']
 DTNAMES = {'bool': 'b1', 'uint8': 'u8', 'uint16': 'u16', 'uint32': 'u32', 'uint64': 'u64',
            'int8': 'i8', 'int16': 'i16', 'int32': 'i32', 'int64': 'i64'}   # protocol names of DT.ofName
-RULE = ('corpus; find: every placement of every sub-window of seeded images up to 6x6 (incl. last row/column and template = '
+RULE = ('corpus; currank: blocks of 2000 triples (n, N2 < 2^26, rank) incl. quotients at / one step below an integer; find: every placement of every sub-window of seeded images up to 6x6 (incl. last row/column and template = '
         'image) plus perturbed (non-occurring) templates; random 1-3 D x 9 dtypes x 7 layouts x 0/1 neighbourhoods of every '
-        'shape (odd/even, larger than the image, centre absent) x every rank x 6 modes; templates of every shape. '
+        'shape (odd/even, larger than the image, centre absent) x every rank x 6 modes; templates of every shape; float32/float64 '
+        'template_match and mean_filter on dyadic values K/2^s of both signs up to the full significand; majority_filter on '
+        'binary images up to 9x9, N = 2..7. '
         'Non-trivial = output differs from the input / at least one match; distinct = distinct protocol line + layout.')
 ASSUMPTIONS = ['neighbourhoods Bc are 0/1 arrays (median rank = Bc.sum()//2 counts the members); for an even number of samples '
                'the median is element N//2 of the sorted samples (upper median), rescaled like any rank in ignore mode',
@@ -28,14 +30,20 @@ ASSUMPTIONS = ['neighbourhoods Bc are 0/1 arrays (median rank = Bc.sum()//2 coun
                'EVERY pixel, overflowing or not, is in addition compared with the model in the wrap-around arithmetic of the '
                'dtype (= exact value mod 2^bits, C07_template_match_wrapping); float dtypes: small integer values (exact), '
                'out-of-range pixels skipped',
-               'float images hold integer-valued (or quarter-integer, rank filters only) samples: exact arithmetic, no NaN',
-               'mean: sums below 2^53 (exact in double); sizes < 2^26']
+               'kinds rank/median/mean/tm: float images hold integer-valued (or quarter-integer, rank filters only) samples: '
+               'exact arithmetic, no NaN; kinds tmf/meanf: finite dyadic float values, judged bit for bit against the generic '
+               'kernel run in binary64/binary32 and against the exact rational value within the proved forward error bound '
+               '(template_match: 2(N+3)u relative, C07_template_match_float_error_bound; mean: 2(n+1)u times the sum of '
+               'magnitudes), exactly where no operation rounds (C07_template_match_float_exact, C07_mean_double_exact)',
+               'mean (integer kinds): sums below 2^53 (exact in double); sizes < 2^26 (C07_currank_double_eq_floor)',
+               'majority_filter is outside the fixed statement: compared with the closed form of its loops only (kind model)']
 TRUSTED = ['numpy (array construction, layout views)', 'python fractions (correctly rounded exact mean)']
 EXHAUSTIVE = {'thorough': True}
 EXPLANATION = ('model = transliteration of rank_filter/mean_filter/template_match/find2d over exact integers (template_match also in '
                'the wrap-around arithmetic of the image dtype, with the integral promotions), run by the native '
                'Lean driver; spec = k-th smallest by counting, exact sum/n, sum of squared differences with borderSpec, '
-               'occurrence predicate')
+               'occurrence predicate; currank, template_match and mean_filter also generic in the arithmetic and run in '
+               'binary64/binary32 (Lean Float/Float32 = the hardware operations); majority_filter loops and closed form')
 
 
 def _arr(case):
@@ -64,6 +72,8 @@ def _line(case):
         sc = case['scale']
         s += (f" fdata={core.fmt_floats([v / sc for v in case['data']])} fbc={core.fmt_floats([v / sc for v in case['bc']])}"
               f" ft={'f32' if case['dtype'] == 'float32' else 'f64'}")
+    if k == 'meanf':
+        s += f" fdata={core.fmt_floats([v / case['scale'] for v in case['data']])}"
     if k == 'majority':
         s += f" n={case['n']}"
     return s
@@ -90,7 +100,7 @@ def _call(case, Al):
             if case.get('default_bc'):
                 return mh.median_filter(Al, mode=case['mode'])
             return mh.median_filter(Al, B, mode=case['mode'])
-        if k == 'mean':
+        if k in ('mean', 'meanf'):
             return mh.mean_filter(Al, B, mode=case['mode'])
         if k in ('tm', 'tmf'):
             return mh.template_match(Al, B, mode=case['mode'])
@@ -171,6 +181,39 @@ def _judge(case, got, drv):
             badm = [i for i, (a, b) in enumerate(zip(g, model)) if lo <= b <= hi and a != b]
             if badm:
                 out.append(dict(kind='model', key='template_match-model', detail=dict(pixels=badm[:8], got=g, model=model)))
+    elif k == 'meanf':
+        if got.dtype != np.float64:
+            return [dict(kind='property', key='mean:dtype', detail=dict(dtype=str(got.dtype)))]
+        g = got.ravel(order='C')
+        sums, ns, asums = core.ints(drv['sum']), core.ints(drv['n']), core.ints(drv['asum'])
+        model = core.floats(drv['model'])
+        sc = case['scale']
+        u = Fraction(1, 2 ** 53)
+        bad, nexact = [], 0
+        for i, (a, sm, n, asum) in enumerate(zip(g.tolist(), sums, ns, asums)):
+            if n == 0:
+                continue
+            if not np.isfinite(a):
+                bad.append(i); continue
+            if sc == 1 and asum <= 2 ** 53:
+                # integer values, magnitudes sum below 2^53: the correctly rounded exact mean (C07_mean_double_exact)
+                nexact += 1
+                if a != float(Fraction(sm, n)):
+                    bad.append(i)
+            elif abs(Fraction(a) * n * sc - sm) > 2 * (n + 1) * u * asum:
+                # |computed sum - sum| <= ((1+u)^(n-1) - 1) * sum of magnitudes, one more rounding for the division
+                bad.append(i)
+        case['_exact'] = nexact
+        case['_undefined'] = sum(1 for n in ns if n == 0)
+        if bad:
+            out.append(dict(kind='property', key='mean:float', detail=dict(pixels=bad[:8], got=g.tolist(), sums=sums, ns=ns,
+                                                                         scale=sc, mode=case['mode'])))
+        else:
+            gb, mb = g.view(np.uint64), model.view(np.uint64)
+            badm = [i for i, n in enumerate(ns) if n > 0 and (i >= len(mb) or gb[i] != mb[i])]
+            if badm:
+                out.append(dict(kind='model', key='mean-float-model', detail=dict(pixels=badm[:8], got=g.tolist(),
+                                                                                  model=model.tolist())))
     elif k == 'tmf':
         if got.dtype != np.dtype(case['dtype']):
             return [dict(kind='property', key='template_match:dtype', detail=dict(dtype=str(got.dtype)))]
@@ -269,6 +312,9 @@ def evaluate(cases):
             tags['pixels_without_samples'] = 'yes'
         if case.get('_skipped'):
             tags['pixels_skipped'] = 'yes'
+        if case['kind'] == 'meanf':
+            tags['meanf_values'] = case.get('values', '-')
+            tags['meanf_exact_pixels'] = 'yes' if case.get('_exact') else 'no'
         if case['kind'] == 'tmf':
             tags['tmf_values'] = case.get('values', '-')
             tags['tmf_exact_pixels'] = 'yes' if case.get('_exact') else 'no'
@@ -447,13 +493,26 @@ def cases(rng, tier):
             out.append(dict(kind='tmf', dtype=fdt, shape=shape, data=[kv() for _ in range(n)], bshape=tshape,
                             bc=[kv() for _ in range(nt)], scale=2 ** sexp, mode=mode, layout=layout,
                             blayout=rng.choice(['C', 'C', 'F', 'strided']), values=values))
-        elif r < 0.81:
+        elif r < 0.84:
+            # mean_filter on float images with arbitrary dyadic values of both signs (cancellation): the double accumulation
+            # in scan order, bit for bit against the generic kernel; against the exact mean within the summation bound
+            bshape, bc = _bc(rng, shape)
+            fdt = rng.choice(['float32', 'float64'])
+            sexp = rng.choice([0, 0, 3, 10])
+            top = 2 ** 24 - 1 if fdt == 'float32' else 2 ** 52
+            values = rng.choice(['small', 'medium', 'significand', 'mixed'])
+            def kv():
+                mag = dict(small=9, medium=3000, significand=top)[values if values != 'mixed' else rng.choice(['small', 'medium', 'significand'])]
+                return rng.randint(-mag, mag)
+            out.append(dict(kind='meanf', dtype=fdt, shape=shape, data=[kv() for _ in range(n)], bshape=bshape, bc=bc,
+                            scale=2 ** sexp, mode=mode if rng.random() < 0.7 else 'ignore', layout=layout, values=values))
+        elif r < 0.87:
             rows, cols = rng.randint(1, 9), rng.randint(1, 9)
             dens = rng.choice([0.3, 0.5, 0.5, 0.7, 1.0])
             out.append(dict(kind='majority', dtype='bool', shape=[rows, cols],
                             data=[int(rng.random() < dens) for _ in range(rows * cols)], n=rng.randint(2, 7),
                             bshape=[1, 1], bc=[0], layout=layout))
-        elif r < 0.93:
+        elif r < 0.95:
             nd = len(shape)
             q = rng.random()
             tshape = ([rng.choice([1, 2, 3, 4]) for _ in range(nd)] if q < 0.7 else [s + rng.choice([0, 1, 3]) for s in shape])
@@ -515,7 +574,7 @@ def shrink(case):
             for j in (Bc.shape[ax] - 1, 0):
                 B = np.delete(Bc, j, axis=ax)
                 bc = [int(x) for x in B.ravel().tolist()]
-                if k in ('rank', 'median', 'mean') and not any(bc):
+                if k in ('rank', 'median', 'mean', 'meanf') and not any(bc):
                     continue
                 c = dict(case, bshape=list(B.shape), bc=bc)
                 if k == 'rank':
